@@ -115,6 +115,64 @@ depth_harness!(m_depth_struct_seq, Entry::Struct, b"[]");
 depth_harness!(m_depth_struct_map, Entry::Struct, b"{}");
 depth_harness!(m_depth_enum, Entry::Enum, b"{}");
 
+/// C02/C01/C20 U-root-value-overrun: the DOM parser works on a padded copy (`x"x` + zeros) and may
+/// report an end offset beyond the input when the root value only ends inside the padding (an
+/// unterminated string closed by the padding's quote). Whatever offset it reports (the parser
+/// itself is cut to an arbitrary offset), `deserialize_value` accepts the value only if it ended
+/// inside the input, answers EOF otherwise, and never leaves the reader beyond the input (F13: it
+/// returned Ok("abcx") for `"abc` and the next call panicked in Read::remain).
+struct UnitProbe;
+impl<'de> de::Visitor<'de> for UnitProbe {
+    type Value = ();
+    fn expecting(&self, _f: &mut std::fmt::Formatter) -> std::fmt::Result {
+        Ok(())
+    }
+    fn visit_bytes<E: de::Error>(self, _v: &[u8]) -> std::result::Result<(), E> {
+        Ok(())
+    }
+}
+
+static mut PAD_END: usize = 0;
+fn cut_parse_with_padding(_v: &mut crate::Value, _json: &[u8], _cfg: crate::config::DeserializeCfg) -> Result<usize> {
+    Ok(unsafe { PAD_END })
+}
+
+fn cut_parse_without_padding<'de, R: Reader<'de>>(
+    _v: &mut crate::Value,
+    _shared: &mut crate::value::shared::Shared,
+    _strbuf: &mut Vec<u8>,
+    _parser: &mut Parser<R>,
+) -> Result<()> {
+    // not reached: the harness starts at index 0 (this cut only keeps the copying DOM parser out of the build)
+    assert!(false);
+    Ok(())
+}
+
+#[kani::proof]
+#[kani::unwind(8)]
+#[kani::stub(crate::error::Error::syntax, crate::error::verif_kani_error::syntax_cut)]
+#[kani::stub(crate::value::node::Value::parse_with_padding, cut_parse_with_padding)]
+#[kani::stub(crate::value::node::Value::parse_without_padding, cut_parse_without_padding)]
+fn u_root_value_padding_overrun() {
+    let text: &'static [u8] = b"\"abc";
+    let n: usize = kani::any();
+    kani::assume(n >= 1 && n <= text.len() + 3);
+    unsafe { PAD_END = n };
+    let mut de = Deserializer::new(Read::new(text, false));
+    let r: Result<()> = de.deserialize_value(UnitProbe);
+    assert!(de.parser.read.index() <= text.len());
+    if n > text.len() {
+        assert!(crate::error::verif_kani_error::code_is_eof(r.as_ref().err().unwrap()));
+    } else {
+        assert!(r.is_ok());
+        assert!(de.parser.read.index() == n);
+    }
+    kani::cover!(n == text.len() + 2);
+    kani::cover!(n == text.len());
+    core::mem::forget(r);
+    core::mem::forget(de);
+}
+
 // ---- models ------------------------------------------------------------------------------------
 
 fn model_skip_space<'de, R: Reader<'de>>(p: &mut Parser<R>) -> Option<u8> {
